@@ -340,7 +340,7 @@ fn main() {
     let mon = Monitor::new("C02", "exploration");
     mon.set_rule("case = one query (find_nodes / FindNode reply / FindValue reply) on one table state reached by a seeded add/join/re-add/self-add/fail/evict history; non-trivial when the table holds >=2 peers in >=2 buckets and n>=1; distinct by (api, bucket-population bitmap, target bucket, n)");
     mon.assume("addresses are non-IP strings so the admission gates of C13 do not interfere with table logic");
-    let per_shard = mon.by_tier(260u64, 6000);
+    let per_shard = mon.by_tier(4000u64, 120000);
     vkit::run_shards(mon.shards(), mon.seed, |_i, mut rng| {
         let rt = checks::rt(false);
         rt.block_on(async {
